@@ -342,6 +342,138 @@ func (P *Program) runStructural(spec string) []StructObl {
 			return fail("no access to %s.%s found (renamed?)", fs[1], fs[2])
 		}
 		return ok(fmt.Sprintf("%d accessor function(s), all hold the lock", checked))
+	case "lock-balanced":
+		// lock-balanced: in every library function, a mutex locked on some path is unlocked again, or its unlock is
+		// deferred, on every path to a return (a return that leaves a non-reentrant mutex held wedges the next caller for
+		// good).  Forward data flow over the CFG: may-held locks (union at joins), must-deferred unlocks (intersection).
+		checked := 0
+		for _, fn := range P.allRepoFuncs() {
+			if !P.isLibrary(fn) {
+				continue
+			}
+			lockKey := func(c *ssa.CallCommon) (key string, acquire, release bool) {
+				callee := c.StaticCallee()
+				if callee == nil || len(c.Args) == 0 || callee.Pkg == nil || callee.Pkg.Pkg.Path() != "sync" {
+					return "", false, false
+				}
+				k := P.describeValue(c.Args[0])
+				switch callee.Name() {
+				case "Lock":
+					return k + "/w", true, false
+				case "RLock":
+					return k + "/r", true, false
+				case "Unlock":
+					return k + "/w", false, true
+				case "RUnlock":
+					return k + "/r", false, true
+				}
+				return "", false, false
+			}
+			has := false
+			for _, b := range fn.Blocks {
+				for _, ins := range b.Instrs {
+					if c, ok := ins.(*ssa.Call); ok {
+						if _, acq, _ := lockKey(&c.Call); acq {
+							has = true
+						}
+					}
+				}
+			}
+			if !has {
+				continue
+			}
+			checked++
+			type st struct{ held, deferred map[string]bool }
+			in := map[*ssa.BasicBlock]*st{fn.Blocks[0]: {map[string]bool{}, map[string]bool{}}}
+			out := map[*ssa.BasicBlock]*st{}
+			cp := func(m map[string]bool) map[string]bool {
+				r := map[string]bool{}
+				for k, v := range m {
+					if v {
+						r[k] = true
+					}
+				}
+				return r
+			}
+			same := func(a, b map[string]bool) bool {
+				if len(a) != len(b) {
+					return false
+				}
+				for k := range a {
+					if !b[k] {
+						return false
+					}
+				}
+				return true
+			}
+			violation := ""
+			for changed, rounds := true, 0; changed && rounds < 50; rounds++ {
+				changed = false
+				for _, b := range fn.Blocks {
+					var cur *st
+					if b == fn.Blocks[0] {
+						cur = &st{map[string]bool{}, map[string]bool{}}
+					} else {
+						for _, p := range b.Preds {
+							o := out[p]
+							if o == nil {
+								continue
+							}
+							if cur == nil {
+								cur = &st{cp(o.held), cp(o.deferred)}
+								continue
+							}
+							for k := range o.held {
+								cur.held[k] = true
+							}
+							for k := range cur.deferred {
+								if !o.deferred[k] {
+									delete(cur.deferred, k)
+								}
+							}
+						}
+						if cur == nil {
+							continue
+						}
+					}
+					in[b] = &st{cp(cur.held), cp(cur.deferred)}
+					for _, ins := range b.Instrs {
+						switch x := ins.(type) {
+						case *ssa.Call:
+							if k, acq, rel := lockKey(&x.Call); acq {
+								cur.held[k] = true
+							} else if rel {
+								delete(cur.held, k)
+							}
+						case *ssa.Defer:
+							if k, _, rel := lockKey(&x.Call); rel {
+								cur.deferred[k] = true
+							}
+						case *ssa.Return:
+							for k := range cur.held {
+								if !cur.deferred[k] && violation == "" {
+									violation = fmt.Sprintf("%s returns at %s with %s still held and no deferred unlock", P.fnKey(fn), P.fset.Position(x.Pos()), strings.TrimSuffix(strings.TrimSuffix(k, "/w"), "/r"))
+								}
+							}
+						}
+					}
+					if o := out[b]; o == nil || !same(o.held, cur.held) || !same(o.deferred, cur.deferred) {
+						out[b] = cur
+						changed = true
+					}
+				}
+				if changed {
+					violation = ""
+				}
+			}
+			if violation != "" {
+				return fail("%s", violation)
+			}
+		}
+		if checked == 0 {
+			return fail("no library function takes a lock (renamed?)")
+		}
+		return ok(fmt.Sprintf("%d locking function(s), every return path releases what it took", checked))
 	case "snapshot-under-one-lock":
 		// snapshot-under-one-lock <funcKey> <pkg.Type> <field,field>: the function reads all the listed fields itself, inside
 		// one critical section (lock taken in the entry block, unlock deferred), and does not delegate to other methods
